@@ -36,6 +36,11 @@ CONFIG = {
                                                ("hist/plain", "plain", "yaepsim", "hist", 2, 16000, 500000)]),
     "C16": dict(level="exploration", batches=[("hist/asan", "asan", "yaepsim", "hist", 3, 6000, 120000),
                                                ("hist/plain", "plain", "yaepsim", "hist", 3, 16000, 500000)]),
+    "C09": dict(level="exploration", batches=[("perturb/asan", "asan", "yaepsim", "perturb", 0, 2500, 60000),
+                                               ("perturb/plain", "plain", "yaepsim", "perturb", 0, 9000, 400000),
+                                               ("perturb-q1/plain", "plain", "yaepsim_q1", "perturb", 0, 3000, 100000),
+                                               ("ansic/plain", "plain", "yaepsim", "ansic", 0, 16, 400),
+                                               ("ansic/asan", "asan", "yaepsim", "ansic", 0, 0, 48)]),
     "C17": dict(level="fault_enumeration", batches=[("oom/asan", "asan", "yaepsim", "oom", 0, 5000, 60000),
                                                      ("oom/plain", "plain", "yaepsim", "oom", 0, 10000, 200000)]),
 }
@@ -232,8 +237,9 @@ def run_batch(batch, pool):
     a = batch.seed0
     end = batch.seed0 + batch.runs
     first = True
+    chunk = 1 if batch.mode == "ansic" else CHUNK
     while a < end:
-        b = min(end, a + CHUNK)
+        b = min(end, a + chunk)
         futs.append(pool.submit(run_chunk, batch.exe, batch.mode, batch.focus, a, b, True))
         first = False
         a = b
@@ -289,11 +295,17 @@ def main():
         return 2
     t_build = time.time() - t0
     os.environ["VSIM_ORACLE_EXE"] = os.path.join(BUILD, "plain", "yaepsim")
+    os.environ["VSIM_ANSIC_DESC"] = os.path.join(BUILD, "plain", "gen", "ansic_desc.txt")
+    os.environ["VSIM_ANSIC_TOKS"] = os.path.join(BUILD, "plain", "gen", "ansic_toks.txt")
+    if tier == "quick":
+        os.environ.setdefault("VSIM_ANSIC_MAXTOK", "6000")
     known = load_known()
     scale = float(os.environ.get("VERIF_SCALE", "1"))
     batches = []
     for i, (label, flavour, binary, mode, focus, rq, rt) in enumerate(cfg["batches"]):
         runs = int((rq if tier == "quick" else rt) * scale)
+        if runs <= 0:
+            continue
         # seed blocks: pool seed = seed >> 8, so VERIF_SEED moves every batch to fresh pools
         seed0 = (seed * 64 + i * 7 + focus) << 24
         batches.append(Batch(label, flavour, binary, mode, focus, runs, seed0))
